@@ -7,6 +7,16 @@ package main
 // on its own (un-normalised) term DAG. The quantified assumptions stay in the query as well;
 // added instances are consequences of them, so this only helps completeness.
 
+// isTriggerOp: sub-terms that may serve as instantiation triggers: array reads, uninterpreted
+// functions, and the non-linear bit-vector operations (for arithmetic lemmas brought in by `uses`).
+func isTriggerOp(op string) bool {
+	switch op {
+	case "select", "app", "bvsrem", "bvurem", "bvsdiv", "bvudiv", "bvmul":
+		return true
+	}
+	return false
+}
+
 type qsite struct {
 	q     *Term   // the forall term
 	guard []*Term // conditions under which it holds
@@ -77,7 +87,7 @@ func triggersOf(q *Term) []*Term {
 		if t.Op == "forall" || t.Op == "exists" {
 			return // do not look inside nested quantifiers
 		}
-		if (t.Op == "select" || t.Op == "app") && containsAny(t, bound, memo) {
+		if isTriggerOp(t.Op) && containsAny(t, bound, memo) {
 			found := map[*Term]bool{}
 			varsIn(t, bound, found, map[*Term]bool{})
 			if len(found) == len(bound) {
@@ -142,20 +152,39 @@ func groundInstances(assume []*Term, roots []*Term) []*Term {
 		// ground select/app terms, outside quantifier bodies
 		var grounds []*Term
 		seen := map[*Term]bool{}
+		// all variables bound by any quantifier of the query: ground terms must not mention them
+		allBound := map[*Term]bool{}
+		{
+			s2 := map[*Term]bool{}
+			var pre func(t *Term)
+			pre = func(t *Term) {
+				if s2[t] {
+					return
+				}
+				s2[t] = true
+				for _, b := range t.Bound {
+					allBound[b] = true
+				}
+				for _, a := range t.Args {
+					pre(a)
+				}
+			}
+			for _, t := range allTerms {
+				pre(t)
+			}
+		}
+		gmemo := map[*Term]bool{}
 		var collect func(t *Term)
 		collect = func(t *Term) {
 			if seen[t] {
 				return
 			}
 			seen[t] = true
-			if t.Op == "forall" || t.Op == "exists" {
-				return
-			}
-			if t.Op == "select" || t.Op == "app" {
+			if isTriggerOp(t.Op) && !containsAny(t, allBound, gmemo) {
 				grounds = append(grounds, t)
 			}
 			for _, a := range t.Args {
-				collect(a)
+				collect(a) // also inside quantifier bodies: closed sub-terms there are ground terms
 			}
 		}
 		for _, t := range allTerms {
